@@ -47,7 +47,7 @@ def h_evolution(env):
     if not env.sym:
         ref = shapes.build_ref(cat)
         r = ref["M"].FromString(bytes(data2))
-        env.check("oracle:reference-view-of-re-emitted==value", sm.canon_equal(cat, "M", sm.canon_of_ref(cat, "M", r), exp))
+        env.check("witness:reference-view-of-re-emitted==value", sm.canon_equal(cat, "M", sm.canon_of_ref(cat, "M", r), exp))
 
 
 def h_unknown_runs(env):
@@ -61,7 +61,7 @@ def h_unknown_runs(env):
     inj = []
     for i in range(n):
         pos = env.choose("pos%d" % i, len(s.fields) + 1)
-        inj.append((pos, gen_unknown(env, "unk%d" % i, known)))
+        inj.append((pos, gen_unknown(env, "unk%d" % i, known, padded=(i == 0))))
     k = sm.Knobs(inject=inj)
     wire = sym.wire(sm.spec_encode(cat, "M", val, k))
     env.observe("wire", wire)
@@ -144,7 +144,7 @@ BUDGET = {"quick": 200, "thorough": 2400}
 UNIT_PATH_CAP = {"quick": 300, "thorough": 20000}
 BOUNDS = {
     "quick": "(newer, older) pairs: 8 S2 shapes x {drop nothing, drop all, drop each single field, two alternating subsets} + 24 S1 shapes with their field dropped; "
-    "values within the C01 sizes; unknown runs: two unknown fields (symbolic number 41..2**29-1 not in the schema, wire types 0/1/2/5, symbolic payload) "
+    "values within the C01 sizes; unknown runs: two unknown fields (symbolic number 41..2**29-1 not in the schema, wire types 0/1/2/5, symbolic payload; the first one possibly with padded, non-minimal tag / value / length varints) "
     "injected at every pair of positions among the known fields; 300 paths per unit",
     "thorough": "every subset of deleted fields for shapes with <= 7 fields; 20000 paths per unit",
 }
